@@ -650,14 +650,34 @@ func checkParallelParams(w *World, r *Report) {
 		r.bad("RACE", "calculateParallelParams:lower-bound", w.pos(fn.Pos()), "cannot show per-goroutine length >= min: "+lower)
 	}
 	// result 1 = (total + P - 1) / P
-	okCeil := false
-	if q, ok := ret.Results[1].(*ssa.BinOp); ok && q.Op == token.QUO && q.Y == P {
+	isCeil := func(v ssa.Value, a, b ssa.Value) bool {
+		q, ok := v.(*ssa.BinOp)
+		if !ok || q.Op != token.QUO || q.Y != b {
+			return false
+		}
 		if s1, ok := q.X.(*ssa.BinOp); ok && s1.Op == token.SUB {
 			if c, ok := constInt(s1.Y); ok && c == 1 {
-				if s0, ok := s1.X.(*ssa.BinOp); ok && s0.Op == token.ADD && ((s0.X == ssa.Value(total) && s0.Y == P) || (s0.Y == ssa.Value(total) && s0.X == P)) {
-					okCeil = true
+				if s0, ok := s1.X.(*ssa.BinOp); ok && s0.Op == token.ADD && ((s0.X == a && s0.Y == b) || (s0.Y == a && s0.X == b)) {
+					return true
 				}
 			}
+		}
+		return false
+	}
+	okCeil := isCeil(ret.Results[1], ssa.Value(total), P)
+	if c, ok := ret.Results[1].(*ssa.Call); ok && !okCeil {
+		// a small helper ceilDiv(a, b) = (a + b - 1) / b called with (total, P)
+		if g := c.Call.StaticCallee(); g != nil && w.inModule(g) && len(g.Params) == 2 && len(c.Call.Args) == 2 && c.Call.Args[0] == ssa.Value(total) && c.Call.Args[1] == P {
+			all, nret := true, 0
+			for _, gb := range g.Blocks {
+				if gr, ok := gb.Instrs[len(gb.Instrs)-1].(*ssa.Return); ok {
+					nret++
+					if len(gr.Results) != 1 || !isCeil(gr.Results[0], ssa.Value(g.Params[0]), ssa.Value(g.Params[1])) {
+						all = false
+					}
+				}
+			}
+			okCeil = all && nret > 0
 		}
 	}
 	if okCeil {
